@@ -26,9 +26,9 @@ class FakeModule:
 
 
 def model_bench(name, phy="sdr_1_1", bankbits=1, rowbits=2, colbits=4, dfi_databits=8, read_latency=None, controller_a10_skip=False,
-                abstract=False):
+                abstract=False, watched_row_low_half=False):
     _args = dict(phy=phy, bankbits=bankbits, rowbits=rowbits, colbits=colbits, dfi_databits=dfi_databits, read_latency=read_latency,
-                 controller_a10_skip=controller_a10_skip)
+                 controller_a10_skip=controller_a10_skip, watched_row_low_half=watched_row_low_half)
     from litedram.phy.model import SDRAMPHYModel
     kw = dict(cfg.PHY_PRESETS[phy])
     kw["dfi_databits"] = dfi_databits
@@ -123,6 +123,10 @@ def model_bench(name, phy="sdr_1_1", bankbits=1, rowbits=2, colbits=4, dfi_datab
     WB = Signal(max=max(nb, 2), name_override="WBANK")
     WR = Signal(rowbits, name_override="WROW")
     WC = Signal(max(colbits - cshift, 1), name_override="WCOL")       # burst-aligned column index
+    if watched_row_low_half:
+        # memory abstraction: a model that reads another word than the watched one gets a free value and does not replay; with the
+        # watched row in the lower half a dropped/aliased top row bit shows as a WRITE to the alias row landing in the watched word
+        asm("watched_row_in_lower_half_of_the_row_space", WR[rowbits - 1] == 0)
     dwb = dfi_databits * nph // 8
     WL = Signal(max=max(dwb, 2), name_override="WLANE")
     val = Signal(8, name_override="ref_byte")
@@ -202,6 +206,8 @@ CONFIGS = {
     "sdr_4banks": (dict(phy="sdr_1_1", read_latency=2, bankbits=2), 0, 16, "t"),
     # 2048 columns (MT46H128M16 is such a module): JEDEC/controller column = {A11, A9..A0}, A10 = auto-precharge
     "widecol_ddr_1_2_c11": (dict(phy="ddr_1_2", read_latency=2, rowbits=2, colbits=11, controller_a10_skip=True, abstract=True), 9, 12, "qt"),
+    # rows as wide as the address bus (rowbits == addressbits, true of most library modules): every row bit incl. the top one matters
+    "fullrow_sdr_1_1_r11": (dict(phy="sdr_1_1", read_latency=2, rowbits=11, colbits=4, abstract=True, watched_row_low_half=True), 9, 12, "qt"),
     "abs_ddr3_1_4_c10_r6": (dict(phy="ddr3_1_4", read_latency=3, dfi_databits=8, rowbits=6, colbits=10, abstract=True), 0, 14, "t"),
 }
 BENCHES = {n: partial(model_bench, n, **c[0]) for n, c in CONFIGS.items()}
